@@ -220,6 +220,8 @@ fn deep() -> Vec<(String, u64, u64, String)> {
 
 fn run(sh: &mut Shard) {
     let tier = sh.cfg.tier;
+    // frame-size and entry-offset ladders
+    crate::ladders::run_family(sh, "calls", Some("calls"), false);
     // (3) directed recursion with closed-form expectations
     for (text, depth, per_level, expected) in deep() {
         if !sh.mine() {
